@@ -55,6 +55,8 @@ func Run(cfg obs.Cfg, o *obs.Obs) {
 		runJoin(cfg, o)
 	case "pipeline":
 		runPipeline(cfg, o)
+	case "do":
+		runDo(cfg, o)
 	default:
 		panic("unknown combinator " + cfg.Comb)
 	}
